@@ -22,7 +22,9 @@ import (
 
 type step struct {
 	Op    string              `json:"op"`
-	Role  map[string][]string `json:"role"`
+	Role  map[string][]string `json:"role"`     // claimed roles
+	Allow []string            `json:"allow"`    // the node's validator set
+	Res2  map[string][]string `json:"resolved"` // resolved roles predicted by the spec
 	Ctype map[string]string   `json:"ctype"`
 	NB    int                 `json:"nb"`
 	LB    int                 `json:"lb"`
@@ -65,18 +67,30 @@ func runBehaviour(steps []step, rnd *rand.Rand) *verdict {
 		ids[n] = b
 	}
 	f := network.VerifNewFlood(ids["self"], uint8(cfg.NB), uint16(cfg.LB), protoOK)
-	peers := map[string]int{}
-	for _, n := range []string{"p1", "p2", "p3"} {
-		var role byte
-		for _, r := range cfg.Role[n] {
+	var allowed [][]byte
+	for _, n := range cfg.Allow {
+		allowed = append(allowed, ids[n])
+	}
+	f.SetAllowedRoots(allowed...)
+	roleCode := func(l []string) (role byte) {
+		for _, r := range l {
 			if r == "seed" {
 				role |= network.VerifRoleSeed
 			} else if r == "root" {
 				role |= network.VerifRoleRoot
 			}
 		}
+		return
+	}
+	peers := map[string]int{}
+	for _, n := range []string{"p1", "p2", "p3"} {
 		ct := ctypes[cfg.Ctype[n]]
-		peers[n] = f.AddPeer(ids[n], role, ct[rnd.Intn(len(ct))], protoOK)
+		// the peer claims cfg.Role[n]; the node resolves the claim against its validator set (real resolveRole)
+		i, resolved := f.AddPeerClaiming(ids[n], roleCode(cfg.Role[n]), ct[rnd.Intn(len(ct))], protoOK)
+		peers[n] = i
+		if resolved != roleCode(cfg.Res2[n]) {
+			return &verdict{"flood:resolve-role", fmt.Sprintf("peer %s claims %v, validator set %v: resolved role %d, spec says %v", n, cfg.Role[n], cfg.Allow, resolved, cfg.Res2[n]), false}
+		}
 	}
 	salt := byte(rnd.Intn(256))
 	ttl1 := byte(1 + rnd.Intn(255)) // the concrete non-zero ttl of this run
@@ -115,7 +129,7 @@ func runBehaviour(steps []step, rnd *rand.Rand) *verdict {
 		f.OnPacket(peers[s.Via], pkt)
 		n := f.DeliveredCount() - before
 		closed := f.PeerClosed(peers[s.Via])
-		desc := fmt.Sprintf("step %d: packet{src=%s dest=%s ttl=%d body=%d proto=%s} via %s (role %v, conn %s)", i, s.Src, s.Dest, ttl, s.Body, s.Proto, s.Via, cfg.Role[s.Via], cfg.Ctype[s.Via])
+		desc := fmt.Sprintf("step %d: packet{src=%s dest=%s ttl=%d body=%d proto=%s} via %s (claims %v, validator set %v, resolved %v, conn %s)", i, s.Src, s.Dest, ttl, s.Body, s.Proto, s.Via, cfg.Role[s.Via], cfg.Allow, cfg.Res2[s.Via], cfg.Ctype[s.Via])
 		if n > 1 {
 			return &verdict{"flood:delivered-twice", desc + fmt.Sprintf(": callback invoked %d times for one packet", n), true}
 		}
@@ -166,7 +180,7 @@ func TestReplay(t *testing.T) {
 		sig, nontrivial := "", false
 		for _, s := range steps {
 			if s.Op == "cfg" {
-				sig += fmt.Sprintf("%v%v%d%d|", s.Role, s.Ctype, s.NB, s.LB)
+				sig += fmt.Sprintf("%v%v%v%d%d|", s.Role, s.Allow, s.Ctype, s.NB, s.LB)
 				continue
 			}
 			sig += fmt.Sprintf("%s<%s,%s,%d,%d,%s;", s.Via, s.Src, s.Dest, s.TTL, s.Body, s.Proto[:1])
